@@ -59,7 +59,9 @@ fn coeffs(cx: &mut Cx, n: usize, cube_from: usize) -> Vec<f64> {
     } else if k == n + 1 {
         (0..n).map(|i| if i % 2 == 0 { 1.0 } else { -0.75 }).collect()
     } else if k == n + 2 {
-        LANE_ID[..n].to_vec()
+        // lane identifier, also scaled by 2^-60 and 2^40 (the property is scale invariant)
+        let sc = [1.0, 8.673617379884035e-19, 1099511627776.0][cx.choose(3)];
+        LANE_ID[..n].iter().map(|v| v * sc).collect()
     } else {
         (0..n).map(|i| if i >= cube_from { CUBE[cx.choose(3)] } else { 1.0 }).collect()
     }
